@@ -135,6 +135,7 @@ int main(int argc, char **argv) {
     }
     FILE *in = fopen(argv[1], "r");
     if (!in) return 2;
+    FILE *devnull = fopen("/dev/null", "w");
     vh_open(argv[2]);
     vh_install_handlers();
     vh_ledger_on = 1; vh_quarantine = 1;
@@ -202,6 +203,7 @@ int main(int argc, char **argv) {
             } else if (!strcmp(op, "rm")) ok = longkeys ? T->remove_by_obj(T, kb, (size_t) keylen[a]) : T->remove(T, kb);
             else if (!strcmp(op, "rmidx")) ok = T->remove_by_idx(T, a);
             else if (!strcmp(op, "clear")) T->clear(T);
+            else if (!strcmp(op, "debug")) ok = T->debug(T, devnull);
             int e = ok ? 0 : vh_ecls(errno);
             long nfail = vh_failed;
             vh_call_end();
@@ -212,6 +214,7 @@ int main(int argc, char **argv) {
             vh_bprintf(&b, "{\"op\":\"%s\",\"a\":%d,\"vid\":%d,\"len\":%d,\"inj\":%ld,\"nfail\":%ld,\"ok\":%s,\"err\":%d,\"rv\":%d,\"rsz\":%zu,\"guard_ok\":%s,",
                        op, a, vid, len, inject ? kk : 0L, nfail, vh_bool(ok), e, rv, rsz, vh_bool(gok));
             /* observations through the handle that did the mutation ... */
+            vh_where = "observe"; vh_watchdog(6);
             observe(&b, T, "");
             vh_bprintf(&b, ",");
             image(&b, mem);
@@ -225,6 +228,7 @@ int main(int argc, char **argv) {
             qhasharr_t *T2 = qhasharr(copy, 0);
             vh_bprintf(&b, ",");
             if (T2) observe(&b, T2, "r"); else vh_bprintf(&b, "\"rsize\":[-1,-1,-1],\"rgets\":[],\"rwalk\":[]");
+            alarm(0);
             mprotect(arena[cur], mapsz, PROT_READ | PROT_WRITE);
             vh_bprintf(&b, ",\"moved\":%s,\"ovl\":%ld,\"bf\":%ld}", vh_bool((vh_step % 3) == 0), vh_overlap_copies, vh_badfree);
             vh_bflush(&b);
